@@ -904,7 +904,7 @@ func runFraming(h *H, cuts bool) {
 	}
 	// nesting bombs in a SEARCH command, plain and with an empty list at every level: never OK
 	for _, depth := range []int{1001, 1500, 20000} {
-		for _, open := range []string{"(", "(()"} {
+		for _, open := range []string{"(", "(() "} {
 			stream := "S1 LOGIN u p\r\nS2 SELECT INBOX\r\nS3 SEARCH " + strings.Repeat(open, depth) + "ALL" + strings.Repeat(")", depth) + "\r\nS4 NOOP\r\n"
 			ts := getServer(false, false)
 			res, _ := runStream(ts, rawSegs([]byte(stream)), false)
